@@ -115,6 +115,10 @@ func Main() {
 	if len(args) >= 2 && (args[0] == "-replay" || args[0] == "--replay") {
 		os.Exit(replayMain(args[1]))
 	}
+	if len(args) >= 1 && args[0] == "-one" {
+		oneMain(args[1:])
+		return
+	}
 	if len(args) >= 1 && args[0] == "-list" {
 		ids := []string{}
 		for id := range Registry {
@@ -155,6 +159,33 @@ func workerMain(args []string) {
 	os.Stdout.Write([]byte("\n"))
 }
 
+// oneMain executes a single history of one shard (used to pin a hang or a
+// memory blow-up to one history): args = property tier shardIndex historyJSON.
+func oneMain(args []string) {
+	runtime.GOMAXPROCS(1)
+	p := Registry[args[0]]
+	shards := p.Shards(args[1])
+	idx, _ := strconv.Atoi(args[2])
+	var st StuckHistory
+	if err := json.Unmarshal([]byte(args[3]), &st); err != nil {
+		os.Exit(2)
+	}
+	go func() {
+		for {
+			time.Sleep(200 * time.Millisecond)
+			var ms runtime.MemStats
+			runtime.ReadMemStats(&ms)
+			if ms.HeapAlloc > 4<<30 {
+				os.Exit(3)
+			}
+		}
+	}()
+	if shards[idx].Replay != nil {
+		shards[idx].Replay(st.Seed, st.History)
+	}
+	fmt.Println("completed")
+}
+
 // startWatchdog reports a transition that does not finish (or a heap that
 // explodes) by naming the operation history in flight, then exits. A hang is
 // only turned into a verdict by the driver after it reproduced in isolation.
@@ -181,6 +212,9 @@ func startWatchdog(shard string) {
 					kind = "no-crash"
 				}
 				res := &Result{Scenario: shard, Incidents: []string{fmt.Sprintf("%s: transition #%d did not finish (stuck=%v heap=%dMB); history in flight: %s", kind, t, stuck, ms.HeapAlloc>>20, InFlight())}}
+				if seed, hist := InFlightOps(); hist != nil {
+					res.Stuck = &StuckHistory{Kind: kind, Scenario: shard, Seed: seed, History: hist}
+				}
 				out, _ := json.Marshal(res)
 				os.Stdout.Write(out)
 				os.Stdout.Write([]byte("\n"))
@@ -192,6 +226,9 @@ func startWatchdog(shard string) {
 
 // InFlight is set by scenarios' engines to render the history being executed.
 var InFlight = func() string { return "" }
+
+// InFlightOps names the history being executed (seed name, operation names).
+var InFlightOps = func() (seed string, history []string) { return "", nil }
 
 type evidence struct {
 	PropertyID  string         `json:"property_id"`
@@ -272,6 +309,36 @@ func driverMain(id, tier string) int {
 				var res Result
 				lines := bytes.Split(bytes.TrimSpace(out.Bytes()), []byte("\n"))
 				ok := len(lines) > 0 && json.Unmarshal(lines[len(lines)-1], &res) == nil
+				if ok && res.Stuck != nil {
+					// pin the hang to that one history: it must fail to complete twice, alone,
+					// within 20 s each (six orders of magnitude above its normal cost)
+					hj, _ := json.Marshal(res.Stuck)
+					failures := 0
+					for k := 0; k < 2; k++ {
+						c := exec.Command(exe, "-one", id, tier, strconv.Itoa(i), string(hj))
+						c.Env = append(os.Environ(), "GOMAXPROCS=1", "GOMEMLIMIT=5GiB")
+						var o bytes.Buffer
+						c.Stdout = &o
+						d := make(chan error, 1)
+						if c.Start() == nil {
+							go func() { d <- c.Wait() }()
+							select {
+							case e := <-d:
+								if e != nil || !strings.Contains(o.String(), "completed") {
+									failures++
+								}
+							case <-time.After(20 * time.Second):
+								c.Process.Kill()
+								<-d
+								failures++
+							}
+						}
+					}
+					if failures == 2 {
+						res.Violations = append(res.Violations, Violation{Property: id, Clause: id + "." + res.Stuck.Kind, Scenario: res.Stuck.Scenario, Seed: res.Stuck.Seed, History: res.Stuck.History,
+							Detail: "this history does not complete: executed alone, twice, it neither finished within 20 s nor stayed below 4 GB", Params: "stuck"})
+					}
+				}
 				mu.Lock()
 				if ok {
 					results[i] = &res
@@ -376,7 +443,7 @@ func driverMain(id, tier string) int {
 		}
 		seenSig[v.Signature()] = true
 		// determinism: the same history must fail the same clause again, twice
-		if sh := shardByName[v.Scenario]; sh != nil && sh.Replay != nil {
+		if sh := shardByName[v.Scenario]; sh != nil && sh.Replay != nil && v.Params != "stuck" {
 			confirmed := 0
 			for k := 0; k < 2; k++ {
 				fails, err := sh.Replay(v.Seed, v.History)
